@@ -1,6 +1,7 @@
 #!/bin/sh
 # Runs every seeded change against its own property's check (and extra properties given in seeded/<id>/also.txt).
 # Writes seeded/RESULTS.tsv:  seed  property  exit  violation-lines  first failing obligation
+export PYVC_EVIDENCE_DIR=${PYVC_EVIDENCE_DIR:-/tmp/pyvc_evidence_scratch}   # runs on modified trees never overwrite /verif/evidence
 OUT=/verif/seeded/RESULTS.tsv; [ -n "$APPEND" ] || : > $OUT      # APPEND=1 SEEDS="id id ...": only those, appended
 [ -z "$(git -C /repo status --porcelain --untracked-files=no)" ] || { echo "/repo not clean"; exit 3; }
 for D in /verif/seeded/*/; do
